@@ -109,6 +109,13 @@ struct Explorer {
           // a reply without cookie is only illegitimate once this server has proven cookie support
           if (m == FG_NOCOOKIE || m == FG_BADCLIENTCOOKIE) {
             if (!t.q.has_cookie) continue;
+            // the packet is matched by id against the CURRENT transmission of that query: if that one carries no cookie
+            // (the server was meanwhile classified as not supporting them) no cookie rule applies and the packet is an
+            // ordinary acceptable answer, not a forgery
+            const Transmission *latest = &t;
+            for (auto &o : w.txs)
+              if (o.q.ok && o.q.id == t.q.id && o.id > latest->id) latest = &o;
+            if (!latest->q.has_cookie) continue;
           }
           if (m == FG_NOCOOKIE) {
             bool proven = false;
